@@ -92,6 +92,20 @@ def SelectedSeq (v : View) (set : SSet) (k : Nat) : Prop :=
     | .one a => seqVal v a = some k
     | .range a b => ∃ x y, seqVal v a = some x ∧ seqVal v b = some y ∧ min x y ≤ k ∧ k ≤ max x y
 
+/-! ### a selection as a set
+
+A `sequence-set` denotes a *set* of messages: `1,1` or `1:3,2` name each message once.  The lists
+above mention a message once per item that covers it; `asSet` keeps the first mention of each. -/
+
+/-- keep the first occurrence of every element not in `seen` -/
+def firstOccFrom : List Sel → List Sel → List Sel
+  | _, [] => []
+  | seen, e :: rest =>
+    if seen.contains e then firstOccFrom seen rest else e :: firstOccFrom (e :: seen) rest
+
+/-- the selected messages, each once, in the order of first mention -/
+def asSet (l : List Sel) : List Sel := firstOccFrom [] l
+
 /-! ### unique identifiers -/
 
 /-- the largest UID in use -/
